@@ -190,6 +190,7 @@ type Result struct {
 
 type TaskInfo struct {
 	ID    int
+	Host  bool
 	Name  string
 	State string
 	Site  string
@@ -523,9 +524,17 @@ func (s *Sim) Others() []TaskInfo {
 		if t == me || t.Aux || t.state == StDone {
 			continue
 		}
-		out = append(out, TaskInfo{ID: t.ID, Name: t.Name, State: t.state.String(), Site: t.site, Steps: t.steps})
+		out = append(out, TaskInfo{ID: t.ID, Host: t.Host, Name: t.Name, State: t.state.String(), Site: t.site, Steps: t.steps})
 	}
 	return out
+}
+
+// CallerIsProgram: the calling task is neither the host nor a harness helper.
+func (s *Sim) CallerIsProgram() bool {
+	me := s.me()
+	s.mu.Lock()
+	defer s.mu.Unlock()
+	return me != nil && !me.Host && !me.Aux
 }
 
 // LocksHeld lists modelled locks that currently have a holder.
